@@ -303,6 +303,9 @@ def gen_cases(ctx: Ctx):
     # forces that move the atoms = gradient of the energy that is written, with the optional Hamiltonian terms on (pair corrections act between the two methanes)
     cases.append(("energy_work", {"names": ["ch4_dimer"], "dt": 0.5, "time": 3.0, "seed": int(rng.integers(1, 999)), "sp_over": {"dispersion": True}}))
     cases.append(("energy_work", {"names": [str(rng.choice(["h2o", "nh3", "ch2o"]))], "dt": 0.4, "time": 2.4, "seed": int(rng.integers(1, 999)), "sp_over": {"method": str(rng.choice(["AM1", "PM3", "MNDO", "PM6_SP"]))}}))
+    # excited active surfaces beyond the first: the energy written must be the one whose gradient moves the atoms
+    cases.append(("energy_work", {"names": [str(rng.choice(["ch2o", "h2o"]))], "dt": 0.4, "time": 2.4, "seed": int(rng.integers(1, 999)), "temp": 300.0,
+                                  "sp_over": {"method": str(rng.choice(["AM1", "PM3"])), "excited_states": {"n_states": 3, "method": "cis", "tolerance": 1e-8}, "active_state": int(rng.choice([2, 3]))}}))
     cases.append(("order", {"names": ["h2o"], "dt": 0.4, "time": 6.4, "stub": True, "seed": int(rng.integers(1, 999))}))
     cases.append(("driver_reuse", {"first": ["ch4", "h2o"], "second": ["h2o", "ch4"], "dt": 0.5, "steps": 8, "stub": True}))
     if ctx.thorough:
